@@ -180,11 +180,36 @@ def histories():
         await L.op({"kind": "store", "box": "saved"}, w.op_store(a, [2], "add", ["\\Answered"]))
         await L.op({"kind": "noop", "box": "saved"}, w.op_noop(a))
 
+    async def h_expunge_quiet(w, L, rnd):
+        """Like the short EXPUNGE history, in a mailbox where nothing announces news: every message seen and looked
+        at before (no unseen, no \\Recent), the highest one among the removed.  Every kill point is explored."""
+        a = w.session()
+        for i in range(5):
+            await L.op({"kind": "append", "box": "INBOX"}, w.op_append(a, "INBOX", flags=[["\\Seen"], ["\\Seen", "kw1"], ["\\Seen"], ["\\Seen", "\\Flagged"], ["\\Seen"]][i]))
+        await L.op({"kind": "select", "box": "INBOX"}, w.op_select(a, "INBOX"))
+        # real time passes between the steps (file modification times have a granularity of one second and are not
+        # virtual): the FETCH's rewrite of .mh_sequences lands in a later second than what the server recorded, so the
+        # next poll looks, finds nothing new and records the mailbox as \\Unmarked
+        time.sleep(1.15)
+        await L.op({"kind": "fetch", "box": "INBOX"}, w.op_fetch(a, [1, 2, 3, 4, 5], "FLAGS"))
+        await L.op({"kind": "noop", "box": "INBOX"}, w.op_noop(a))
+        L.send({"kind": "advance", "box": "INBOX"})
+        await w.rig.advance(12)
+        L.done(w)
+        await L.op({"kind": "noop", "box": "INBOX"}, w.op_noop(a))
+        await L.op({"kind": "unselect", "box": "INBOX"}, w.op_unselect(a))
+        await L.op({"kind": "select", "box": "INBOX"}, w.op_select(a, "INBOX"))
+        time.sleep(1.15)
+        await L.op({"kind": "store", "box": "INBOX"}, w.op_store(a, [2, 5], "add", ["\\Deleted"]))
+        await L.op({"kind": "expunge", "box": "INBOX"}, w.op_expunge(a))
+        await L.op({"kind": "noop", "box": "INBOX"}, w.op_noop(a))
+        await L.op({"kind": "fetch", "box": "INBOX"}, w.op_fetch(a, [1, 2, 3], "FLAGS"))
+
     async def h_startup_only(w, L, rnd):
         L.send({"kind": "noop"})
         L.done(w)
 
-    return {"messages": h_messages, "namespace": h_copy_move_namespace, "inboxpack": h_rename_inbox_pack_delivery, "startup": h_startup_only, "expunge": h_expunge_small, "deletebox": h_delete_small, "renameinbox": h_rename_inbox_small}
+    return {"messages": h_messages, "namespace": h_copy_move_namespace, "inboxpack": h_rename_inbox_pack_delivery, "startup": h_startup_only, "expunge": h_expunge_small, "deletebox": h_delete_small, "renameinbox": h_rename_inbox_small, "quietexpunge": h_expunge_quiet}
 
 
 class OpLog:
@@ -314,7 +339,7 @@ def child(d, hist, kill_at, ledger_path, points_out, variant):
 
 
 # -------------------------------------------------------------- recovery
-def recover(d, ledger_path, result_path, deliver, dry_ledger=None):
+def recover(d, ledger_path, result_path, deliver, dry_ledger=None, kill_again_first=False):
     logging.basicConfig(level=logging.CRITICAL)
     from . import rig as R
     from .history import canon_flag, canon_name, wire_name
@@ -364,6 +389,28 @@ def recover(d, ledger_path, result_path, deliver, dry_ledger=None):
         except Exception as e:
             res["delivered"] = "failed: %r" % e
 
+    # mailboxes whose folder mtime (one-second granularity) is not newer than the one stored with their last commit:
+    # the restart will take their record for current without looking at the folder (known-finding classification)
+    res["mtime_not_newer"] = []
+    try:
+        import sqlite3
+
+        con = sqlite3.connect(os.path.join(d, "asimap.db"))
+        for nm, mt in con.execute("SELECT name, mtime FROM mailboxes"):
+            fp = os.path.join(d, nm)
+            try:
+                act = int(os.path.getmtime(fp))
+                sp = os.path.join(fp, ".mh_sequences")
+                if os.path.exists(sp):
+                    act = max(act, int(os.path.getmtime(sp)))
+                if act <= int(mt):
+                    res["mtime_not_newer"].append("INBOX" if nm == "inbox" else nm)
+            except OSError:
+                pass
+        con.close()
+    except Exception as e:  # noqa: BLE001
+        res["mtime_not_newer_error"] = repr(e)
+
     def bad(kind, detail):
         res["ok"] = False
         res["problems"].append([kind, str(detail)[:500]])
@@ -379,6 +426,22 @@ def recover(d, ledger_path, result_path, deliver, dry_ledger=None):
 
             bad("restart-failed", f"{type(e).__name__}: {e}; {traceback.format_exc()[-400:]}")
             return
+        if kill_again_first:
+            # variant: the restarted server is killed before any client has talked to it (what it repaired
+            # when it started must not live in memory only); the server after that one is the one judged
+            try:
+                await rig.settle()
+                await rig.kill()
+                rig = await R.Rig(d, loop).start()
+                rig.server.initial_folder_scan = True
+                await rig.server.check_all_folders()
+                rig.server.initial_folder_scan = False
+                res["killed_again_before_any_command"] = True
+            except BaseException as e:  # noqa: B036
+                import traceback
+
+                bad("second-restart-failed", f"{type(e).__name__}: {e}; {traceback.format_exc()[-400:]}")
+                return
         state = await inspect(rig, "R")
         if state is None:
             return
@@ -591,4 +654,5 @@ if __name__ == "__main__":
         os._exit(0)
     else:
         d, ledger, result = sys.argv[2:5]
-        recover(d, ledger, result, len(sys.argv) > 5 and sys.argv[5] == "deliver", sys.argv[6] if len(sys.argv) > 6 and sys.argv[6] != "-" else None)
+        recover(d, ledger, result, len(sys.argv) > 5 and sys.argv[5] == "deliver", sys.argv[6] if len(sys.argv) > 6 and sys.argv[6] != "-" else None,
+                kill_again_first=len(sys.argv) > 7 and sys.argv[7] == "again")
